@@ -5,7 +5,7 @@
 import Ptx.Gen.L_S4G3
 import Ptx.Gen.Known
 import Ptx.Sem.Subset
-import Ptx.Props.C01
+import Ptx.Props.C03
 import Ptx.Gen.L_G3
 namespace Ptx.Gen.Obl.S4G3
 open Ptx
@@ -31,5 +31,10 @@ theorem c01_valid_sound (arg : Argument) (t : Tableau)
     (hd : Deriv Gen.S4G3.sem.soundPart (trunk Gen.S4G3.sem arg) t) (hclosed : t.allClosed = true)
     (M : Struct) (hM : M.Interp Gen.S4G3.sem) (e : Env M.D) (w0 : M.W) : ¬ Countermodel Gen.S4G3.sem M e w0 arg :=
   Props.C01.C01_valid_sound Gen.S4G3.sem sound_core arg t hd hclosed M hM e w0
+
+/-- C03 (soundness half) for this logic: a closed tableau of a propositional argument is truth-table valid. -/
+theorem c03_closed_tt (arg : Argument) (hp : arg.isProp = true) (t : Tableau)
+    (hd : Deriv Gen.S4G3.sem.soundPart (trunk Gen.S4G3.sem arg) t) (hclosed : t.allClosed = true) : ttValid Gen.S4G3.sem.T arg = true :=
+  Props.C03.C03_closed_implies_ttValid Gen.S4G3.sem sound_core (by decide +kernel) arg hp t hd hclosed
 
 end Ptx.Gen.Obl.S4G3
